@@ -2,6 +2,7 @@ package harness
 
 import (
 	"errors"
+	"os"
 	"fmt"
 	"net"
 	"net/http"
@@ -200,6 +201,15 @@ func flowBody(c flowCase, oracle string) vsched.Body {
 			got = append(got, string(p.Data))
 		}
 		x.Outcome = fmt.Sprintf("got=%v close=%v", got, s.rec.CloseReasons())
+		if os.Getenv("VERIF_EVENTS") != "" {
+			// (replays: the recorded events of the execution, for reading a witness)
+			for _, e := range w.Events {
+				fmt.Printf("EVENT #%d %s thread=%s pkts=%s\n", e.Seq, e, e.Thread, fmtPkts(e.Pkts))
+			}
+			for _, r := range w.Resps {
+				fmt.Printf("RESP %s code=%d wrote=%v wroteSeq=%d body=%s\n", r.Desc, r.Code, r.wrote, r.WroteSeq, bodyPreview(r.Body))
+			}
+		}
 	}
 }
 
